@@ -18,9 +18,9 @@ func init() { fw.Register("C14", "exploration", Run) }
 type relKind int
 
 const (
-	relEq relKind = iota
-	relSub        // before ⊆ after ("never removes")
-	relSup        // before ⊇ after ("never adds")
+	relEq  relKind = iota
+	relSub         // before ⊆ after ("never removes")
+	relSup         // before ⊇ after ("never adds")
 )
 
 func (k relKind) String() string { return [...]string{"equal", "never-removes", "never-adds"}[k] }
@@ -29,7 +29,7 @@ type edit struct {
 	name  string
 	after *wm.World
 	rel   relKind
-	has   bool // rel applies (otherwise only locality)
+	has   bool                  // rel applies (otherwise only locality)
 	local func(p wm.Point) bool // nil = no locality claim; true = point must be unchanged
 }
 
